@@ -725,6 +725,51 @@ func ruleOnStack(rule string) RuleFn {
 				if okAll {
 					c.OK(rule, cons, fmt.Sprintf("%d lookup definition(s) checked path-sensitively", len(defs)), call)
 				}
+				// a decorator found on the stack is skipped, the search goes on with the next scope
+				for _, d := range defs {
+					lk := d.(*ssa.Extract).Tuple.(*ssa.Call)
+					for _, l := range rangeLoops(fn) {
+						if !l.body[lk.Block()] {
+							continue
+						}
+						for _, e := range an.EdgesWhere(fn, func(f an.Fact) bool {
+							if k, isCall := f.Cond.(*ssa.Call); isCall && k.Common().IsInvoke() && k.Common().Value == d {
+								if sop, ok := onStackPredicate(c, k.Common().Method.Name(), onStack); ok {
+									return (sop == "==") != f.Neg
+								}
+								return false
+							}
+							b, ok := f.Cond.(*ssa.BinOp)
+							if !ok {
+								return false
+							}
+							k, ok := b.X.(*ssa.Call)
+							if !ok || !k.Common().IsInvoke() || k.Common().Method.Name() != "State" || k.Common().Value != d {
+								return false
+							}
+							return f.S == "("+an.Norm(b.X)+" == "+onStack+")"
+						}) {
+							// from the on-stack edge the loop must go round again: no way out of the loop before the header
+							leaves := false
+							seen := map[*ssa.BasicBlock]bool{}
+							stack := []*ssa.BasicBlock{e.From.Succs[e.Succ]}
+							for len(stack) > 0 {
+								b := stack[len(stack)-1]
+								stack = stack[:len(stack)-1]
+								if b == l.header || seen[b] {
+									continue
+								}
+								seen[b] = true
+								if !l.body[b] {
+									leaves = true
+									break
+								}
+								stack = append(stack, b.Succs...)
+							}
+							c.Check(!leaves, rule, "an on-stack decorator in "+an.ShortName(fn)+" is skipped and the search continues", "continue with the next enclosing scope", "finding the decorator on the stack ends the search: the decorators of the scopes further out are not applied, the running decorator receives the undecorated value", call, nil)
+						}
+					}
+				}
 			}
 		}
 		c.Floor(rule, "call sites of decorator.Call", n, 2)
@@ -1158,6 +1203,9 @@ func ruleUserErr(rule string) RuleFn {
 			if userErr == nil {
 				c.Bad(rule, m.name+": the function's error is returned", "no return of the function's own error value: errors of the invoked function are dropped", m.sink, nil)
 			} else {
+				// ... and it is the LAST result
+				last := regexp.MustCompile(`\[\(len\(.*\) - 1\)\]\.Interface\(\)\.\(error\)#0$`).MatchString(an.Norm(userErr))
+				c.Check(last, rule, m.name+": the error is taken from the function's last result", "returned[len(returned)-1]", "the returned error is "+an.Norm(userErr)+", not the last result of the function: the error of func() (T, error) is ignored", m.sink, nil)
 				// nil returns after the sink must not be reachable across the err != nil edge
 				ne := an.EdgesWhere(m.fn, an.FactIs("("+an.Norm(userErr)+" != nil)"))
 				bad := false
